@@ -70,6 +70,17 @@ def coplanarity_ambiguous(V, facets, normals, offsets, lo=1e-12, hi=1e-6):
     return bool(np.any((dd > lo) & (dd < hi)))
 
 
+def facet_flatness(V, facets, normals, offsets):
+    """Largest distance of a facet's own vertices from the facet plane, in units of eps * (largest |coordinate|)."""
+    V = np.asarray(V, dtype=float)
+    L = float(np.max(np.abs(V))) or 1.0
+    worst = 0.0
+    for fc, n, d in zip(facets, np.asarray(normals), np.asarray(offsets)):
+        if len(fc) > 3:
+            worst = max(worst, float(np.max(np.abs(V[list(fc)] @ n - d))))
+    return worst / (EPS * L)
+
+
 def tol_scale(V, ntri, K):
     """Conditioning-aware absolute tolerances for origin-based algorithms (DESIGN s.4)."""
     L = maxnorm(V)
